@@ -44,6 +44,10 @@ pub trait Rule: RuleClone + Debug + Send {
         if kind == "equal" {
             if escaper.has_unprintable(&expression) {
                 format!("{rendered} (escaped{quantifier})")
+            } else if rendered.ends_with(')') {
+                // the expression may itself end in something that reads as a
+                // modifier (e.g. `foo (glob)`): state the kind explicitly
+                format!("{rendered} (equal{quantifier})")
             } else {
                 format!("{rendered}{equal_quantifier}")
             }
